@@ -115,9 +115,9 @@ theorem createProgram_tracks (pt : PT) (kv : List (String × Rat)) (mm : Option 
   · simp only [ok_bind]
     exact tracks_bind_last (compile_tracks pt (.dict kv) _ _ [] single) (fun _ _ => avoid_pure _)
 
-/-- what the judge's verdict means: every visible entry evaluates and every visible constraint is true -/
-theorem visOutcome_ok_iff (l : List Vis) :
-    visOutcome l = .ok () ↔ ∀ v ∈ l, ∃ x, v.scope.eval v.expr = .ok x ∧ (v.isCons = true → x ≠ 0) := by
+/-- what the judge's verdict means: every visible entry is fine (`Vis.Fine`: a demanded key is present, a needed
+expression evaluates, a constraint evaluates to true) -/
+theorem visOutcome_ok_iff (l : List Vis) : visOutcome l = .ok () ↔ ∀ v ∈ l, v.Fine := by
   induction l with
   | nil => simp
   | cons v l ih =>
@@ -125,32 +125,21 @@ theorem visOutcome_ok_iff (l : List Vis) :
     constructor
     · intro h
       obtain ⟨u, hu, h⟩ := bind_ok.mp h
-      unfold checkVis at hu
-      obtain ⟨x, hx, hu⟩ := bind_ok.mp hu
+      cases u
       intro w hw
       rcases List.mem_cons.mp hw with rfl | hw
-      · refine ⟨x, hx, fun hc hx0 => ?_⟩
-        simp [hc, hx0] at hu
+      · exact (checkVis_ok_iff _).mp hu
       · exact ih.mp h w hw
     · intro h
-      obtain ⟨x, hx, hc⟩ := h v (by simp)
-      have : checkVis v = .ok () := by
-        unfold checkVis
-        rw [hx]
-        simp only [ok_bind]
-        split
-        · rename_i hbad
-          exact absurd hbad.2 (hc hbad.1)
-        · rfl
-      rw [this]
-      simp only [ok_bind]
+      rw [(checkVis_ok_iff v).mpr (h v (by simp)), ok_bind]
       exact ih.mpr (fun w hw => h w (by simp [hw]))
 
 /-- the judge raises a constraint violation exactly when the first visible entry that is not fine is a
 constraint evaluating to false -/
 theorem visOutcome_cv_iff (l : List Vis) :
     visOutcome l = .error .constraintViolation ↔
-      ∃ pre v post, l = pre ++ v :: post ∧ visOutcome pre = .ok () ∧ v.isCons = true ∧ v.scope.eval v.expr = .ok 0 := by
+      ∃ pre v post, l = pre ++ v :: post ∧ visOutcome pre = .ok () ∧ v.key = none ∧ v.isCons = true ∧
+        v.scope.eval v.expr = .ok 0 := by
   induction l with
   | nil =>
     constructor
@@ -162,28 +151,17 @@ theorem visOutcome_cv_iff (l : List Vis) :
     constructor
     · intro h
       rcases bind_err.mp h with h | ⟨u, hu, h⟩
-      · refine ⟨[], w, l, rfl, rfl, ?_⟩
-        unfold checkVis at h
-        rcases bind_err.mp h with h | ⟨x, hx, h⟩
-        · exact absurd rfl (avoid_iff.mp (eval_noCV w.scope w.expr) _ h)
-        · split at h
-          · rename_i hc
-            exact ⟨hc.1, by rw [hx, hc.2]⟩
-          · cases h
+      · exact ⟨[], w, l, rfl, rfl, (checkVis_cv_iff w).mp h⟩
       · obtain ⟨pre, v, post, hl, hpre, hv⟩ := ih.mp h
         refine ⟨w :: pre, v, post, by rw [hl]; rfl, ?_, hv⟩
         rw [visOutcome_cons, hu, ok_bind]
         exact hpre
-    · rintro ⟨pre, v, post, hl, hpre, hc, hv⟩
+    · rintro ⟨pre, v, post, hl, hpre, hv⟩
       cases pre with
       | nil =>
         simp only [List.nil_append, List.cons.injEq] at hl
         obtain ⟨rfl, rfl⟩ := hl
-        have : checkVis w = .error .constraintViolation := by
-          unfold checkVis
-          rw [hv]
-          simp [hc]
-        rw [this]
+        rw [(checkVis_cv_iff w).mpr hv]
         rfl
       | cons p pre =>
         simp only [List.cons_append, List.cons.injEq] at hl
@@ -191,27 +169,25 @@ theorem visOutcome_cv_iff (l : List Vis) :
         rw [visOutcome_cons] at hpre
         obtain ⟨u, hu, hpre⟩ := bind_ok.mp hpre
         rw [hu, ok_bind]
-        exact ih.mpr ⟨pre, v, post, rfl, hpre, hc, hv⟩
+        exact ih.mpr ⟨pre, v, post, rfl, hpre, hv⟩
 
 /-- **A program only if all constraints hold.** If instantiation returns (a program, or nothing to play), then
 every constraint of every visited node evaluates true in the scope that node sees — after all enclosing
-mappings and loop indices — and everything a visited node needs (`visibleNeeds`) could be evaluated. -/
+mappings and loop indices — and every other visible entry is fine: the expressions a visited node needs could be
+evaluated and the keys it demands are present. -/
 theorem constraints_enforced (pt : PT) (kv : List (String × Rat)) (mm : Option (List (MName × Option MName)))
     (cmUser : List (Chan × Option Chan)) (single : List String) (prog : Option Loop)
     (h : createProgram pt kv mm cmUser single = .ok prog) :
-    AllTrue (visibleConstraints pt (.dict kv)) ∧
-    (∀ se ∈ visibleNeeds pt (.dict kv), ∃ x, se.1.eval se.2 = .ok x) := by
+    AllTrue (visibleConstraints pt (.dict kv)) ∧ (∀ v ∈ visible pt (.dict kv), v.Fine) := by
   have hok := (visOutcome_ok_iff _).mp ((createProgram_tracks pt kv mm cmUser single).1 prog h)
-  constructor
-  · intro se hse
-    obtain ⟨v, hv, hc, rfl⟩ := mem_visibleConstraints.mp hse
-    obtain ⟨x, hx, hx0⟩ := hok v hv
-    exact ⟨x, hx, hx0 hc⟩
-  · intro se hse
-    unfold visibleNeeds at hse
-    obtain ⟨v, hv, rfl⟩ := List.mem_map.mp hse
-    obtain ⟨x, hx, _⟩ := hok v (List.mem_filter.mp hv).1
-    exact ⟨x, hx⟩
+  refine ⟨?_, hok⟩
+  intro se hse
+  obtain ⟨v, hv, hk, hc, rfl⟩ := mem_visibleConstraints.mp hse
+  have := hok v hv
+  unfold Vis.Fine at this
+  rw [hk] at this
+  obtain ⟨x, hx, hx0⟩ := this
+  exact ⟨x, hx, hx0 hc⟩
 
 /-- **A violation only if a constraint is false, and nothing visible failed before it.** If instantiation
 raises `ParameterConstraintViolation`, the first entry (in visiting order) among the constraints and needed
@@ -220,8 +196,8 @@ sees. -/
 theorem violation_sound (pt : PT) (kv : List (String × Rat)) (mm : Option (List (MName × Option MName)))
     (cmUser : List (Chan × Option Chan)) (single : List String)
     (h : createProgram pt kv mm cmUser single = .error .constraintViolation) :
-    ∃ pre v post, visible pt (.dict kv) = pre ++ v :: post ∧ visOutcome pre = .ok () ∧ v.isCons = true ∧
-      v.scope.eval v.expr = .ok 0 :=
+    ∃ pre v post, visible pt (.dict kv) = pre ++ v :: post ∧ visOutcome pre = .ok () ∧ v.key = none ∧
+      v.isCons = true ∧ v.scope.eval v.expr = .ok 0 :=
   (visOutcome_cv_iff _).mp ((createProgram_tracks pt kv mm cmUser single).2 h)
 
 /-- **Never rejects a satisfying assignment**: if every constraint of every visited node evaluates true,
@@ -231,8 +207,8 @@ theorem never_rejects_satisfying (pt : PT) (kv : List (String × Rat)) (mm : Opt
     (h : AllTrue (visibleConstraints pt (.dict kv))) :
     createProgram pt kv mm cmUser single ≠ .error .constraintViolation := by
   intro hcv
-  obtain ⟨pre, v, post, hl, _, hc, hv⟩ := violation_sound pt kv mm cmUser single hcv
-  obtain ⟨x, hx, hx0⟩ := h (v.scope, v.expr) (mem_visibleConstraints.mpr ⟨v, by rw [hl]; simp, hc, rfl⟩)
+  obtain ⟨pre, v, post, hl, _, hk, hc, hv⟩ := violation_sound pt kv mm cmUser single hcv
+  obtain ⟨x, hx, hx0⟩ := h (v.scope, v.expr) (mem_visibleConstraints.mpr ⟨v, by rw [hl]; simp, hk, hc, rfl⟩)
   rw [hv] at hx
   cases hx
   exact hx0 rfl
@@ -254,8 +230,8 @@ theorem constraint_iff (pt : PT) (kv : List (String × Rat)) (mm : Option (List 
     (cmUser : List (Chan × Option Chan)) (single : List String) (prog : Option Loop)
     (h : createProgram (stripCons pt) kv mm cmUser single = .ok prog) :
     createProgram pt kv mm cmUser single = .error .constraintViolation ↔
-      ∃ pre v post, visible pt (.dict kv) = pre ++ v :: post ∧ visOutcome pre = .ok () ∧ v.isCons = true ∧
-        v.scope.eval v.expr = .ok 0 := by
+      ∃ pre v post, visible pt (.dict kv) = pre ++ v :: post ∧ visOutcome pre = .ok () ∧ v.key = none ∧
+        v.isCons = true ∧ v.scope.eval v.expr = .ok 0 := by
   rw [constraints_only_gate pt kv mm cmUser single prog h, ← visOutcome_cv_iff]
   cases visOutcome (visible pt (.dict kv)) with
   | error e => simp
@@ -266,8 +242,7 @@ constraint of every visited node evaluates true; there is no third outcome besid
 theorem program_iff (pt : PT) (kv : List (String × Rat)) (mm : Option (List (MName × Option MName)))
     (cmUser : List (Chan × Option Chan)) (single : List String) (prog : Option Loop)
     (h : createProgram (stripCons pt) kv mm cmUser single = .ok prog) :
-    createProgram pt kv mm cmUser single = .ok prog ↔
-      ∀ v ∈ visible pt (.dict kv), ∃ x, v.scope.eval v.expr = .ok x ∧ (v.isCons = true → x ≠ 0) := by
+    createProgram pt kv mm cmUser single = .ok prog ↔ ∀ v ∈ visible pt (.dict kv), v.Fine := by
   rw [constraints_only_gate pt kv mm cmUser single prog h, ← visOutcome_ok_iff]
   cases visOutcome (visible pt (.dict kv)) with
   | error e => simp
@@ -281,54 +256,56 @@ example : (∃ p, createProgram (stripCons exampleTree) [("x", 1)] none [] [] = 
   ⟨⟨_, by with_unfolding_all rfl⟩, ⟨_, by with_unfolding_all rfl⟩, ⟨_, by with_unfolding_all rfl⟩,
     by with_unfolding_all rfl⟩
 
-/-- **A missing parameter never yields a program.** If an expression that a visited node evaluates
-unconditionally (a constraint, a repetition count, a loop bound, a constant duration, a table entry, an eagerly
-mapped parameter) cannot be evaluated in the scope the node sees — in particular because a parameter it needs is
-missing — instantiation fails; it never returns a program. -/
+/-- **A missing parameter never yields a program.** If a visible entry is not fine — an expression that a
+visited node evaluates unconditionally (a constraint, a repetition count, a loop bound, a constant duration, a
+table entry, an eagerly mapped parameter) cannot be evaluated in the scope the node sees, in particular because
+a parameter it needs is missing, or a key an eagerly mapping node demands is absent — instantiation fails; it
+never returns a program. -/
 theorem missing_never_program (pt : PT) (kv : List (String × Rat)) (mm : Option (List (MName × Option MName)))
     (cmUser : List (Chan × Option Chan)) (single : List String)
-    (h : ∃ v ∈ visible pt (.dict kv), ∃ e, v.scope.eval v.expr = .error e) :
+    (h : ∃ v ∈ visible pt (.dict kv), ¬ v.Fine) :
     ∀ prog, createProgram pt kv mm cmUser single ≠ .ok prog := by
   intro prog hprog
-  obtain ⟨v, hv, e, he⟩ := h
-  obtain ⟨x, hx, _⟩ := (visOutcome_ok_iff _).mp ((createProgram_tracks pt kv mm cmUser single).1 prog hprog) v hv
+  obtain ⟨v, hv, hnf⟩ := h
+  exact hnf ((visOutcome_ok_iff _).mp ((createProgram_tracks pt kv mm cmUser single).1 prog hprog) v hv)
+
+/-- in particular: an entry whose expression fails to evaluate (e.g. with `parameter_missing`) is not fine -/
+theorem not_fine_of_eval_error {v : Vis} {e : Err} (hk : v.key = none) (he : v.scope.eval v.expr = .error e) :
+    ¬ v.Fine := by
+  unfold Vis.Fine
+  rw [hk]
+  rintro ⟨x, hx, _⟩
   rw [he] at hx
   cases hx
 
 /-- the judge used by the harness (`consOutcome` on the constraints only) agrees with the tracked outcome -/
 theorem judge_agrees (l : List Vis) :
-    (visOutcome l = .ok () → consOutcome ((l.filter (·.isCons)).map (fun v => (v.scope, v.expr))) = .ok ()) ∧
-    (visOutcome l = .error .constraintViolation →
-      consOutcome ((l.filter (·.isCons)).map (fun v => (v.scope, v.expr))) = .error .constraintViolation) := by
+    (visOutcome l = .ok () → consOutcome (consOf l) = .ok ()) ∧
+    (visOutcome l = .error .constraintViolation → consOutcome (consOf l) = .error .constraintViolation) := by
   induction l with
   | nil => exact ⟨fun _ => rfl, fun h => by cases h⟩
   | cons v l ih =>
     rw [visOutcome_cons]
-    by_cases hc : v.isCons = true
-    · have hck : checkVis v = checkOne (v.scope, v.expr) := by
-        unfold checkVis checkOne
-        simp [hc]
-      simp only [List.filter_cons, hc, if_true, List.map_cons, consOutcome, List.forM_eq_forM, List.forM_cons]
-      rw [hck]
+    cases hc : v.isConstraint with
+    | true =>
+      have hco : consOutcome (consOf (v :: l)) = checkOne (v.scope, v.expr) >>= fun _ => consOutcome (consOf l) := by
+        simp only [consOf, List.filter_cons, hc, if_true, List.map_cons, consOutcome, List.forM_eq_forM, List.forM_cons]
+      rw [hco, checkVis_of_constraint hc]
       constructor
       · intro h
         obtain ⟨u, hu, h⟩ := bind_ok.mp h
         rw [hu, ok_bind]
-        have := ih.1 h
-        simpa [consOutcome] using this
+        exact ih.1 h
       · intro h
         rcases bind_err.mp h with h | ⟨u, hu, h⟩
         · rw [h]; rfl
         · rw [hu, ok_bind]
-          have := ih.2 h
-          simpa [consOutcome] using this
-    · have hf : v.isCons = false := by simpa using hc
-      simp only [List.filter_cons, hf, Bool.false_eq_true, if_false]
-      have hck : Avoid CV (checkVis v) := by
-        unfold checkVis
-        refine avoid_bind (eval_noCV _ _) (fun x _ => ?_)
-        simp [hf]
-        exact avoid_ok _
+          exact ih.2 h
+    | false =>
+      have hco : consOf (v :: l) = consOf l := by
+        simp only [consOf, List.filter_cons, hc, Bool.false_eq_true, if_false]
+      rw [hco]
+      have hck := checkVis_noCV_of_not_constraint hc
       constructor
       · intro h
         obtain ⟨u, _, h⟩ := bind_ok.mp h
